@@ -282,7 +282,7 @@ def round_cases(draw, cls: str):
     p = draw(xs.round_params(cls))
     p["place"] = draw(xs.placements())
     p["which"] = draw(st.sampled_from(["core", "shell"]))
-    p["m"] = draw(st.integers(0, 15))
+    p["m"] = draw(st.sampled_from(list(range(12))))
     return p
 
 
@@ -327,7 +327,7 @@ def sketch_cases(draw, kind: str):
     return {
         "kind": kind, "sketch": draw(xs.sketch_params(kind)), "place": draw(xs.placements()),
         "sweep": draw(st.sampled_from(["extrude-amount", "revolve", "loft"]).flatmap(xs.sweep_params)),
-        "tier": draw(st.integers(0, 2)), "m": draw(st.integers(0, 15)),
+        "tier": draw(st.sampled_from([1, 0, 2])), "m": draw(st.sampled_from(list(range(12)))),
     }
 
 
